@@ -37,7 +37,7 @@ ASSUMPTIONS = ["frozen positions are 0-based (the convention full_shuffle implem
                "non-termination (N<5, single charge type) is counted as BUDGET",
                "bookkeeping is observed through the API: length, counts, per-residue charge via get_linear_NCPR(1), SCD, carried delta-max via get_deltaMax()",
                "swapRes indices are valid 0-based positions"]
-PROBES = ["light_op_checked_at_next_sweep", "permutants_object_reused", "frozen_as_shared_set", "earlier_api_result_still_held", "default_frozen_argument", "frozen_as_tuple", "frozen_as_frozenset", "frozen_as_range", "frozen_nonempty", "frozen_all", "frozen_out_of_range", "frozen_as_list", "cache_warm_before_move", "child_inherits_dmax",
+PROBES = ["frozen_positions_are_numpy_ints", "chain_longer_than_1000", "light_op_checked_at_next_sweep", "permutants_object_reused", "frozen_as_shared_set", "earlier_api_result_still_held", "default_frozen_argument", "frozen_as_tuple", "frozen_as_frozenset", "frozen_as_range", "frozen_nonempty", "frozen_all", "frozen_out_of_range", "frozen_as_list", "cache_warm_before_move", "child_inherits_dmax",
           "same_seed_twice", "clock_went_back", "returns_self", "block_swap_attempt_99", "block_swap_N_lt_4", "cluster_draw_cap",
           "cluster_named_refusal", "chain_depth_ge_5", "panel_on_child", "permutant_api", "shuffle_api", "swapres_same_index",
           "three_types_sample", "moved_something"]
@@ -49,6 +49,8 @@ def gen_plan(streams, tier):
     roots = []
     for _ in range(nroot):
         n = rnd.choice((rnd.randrange(1, 5), rnd.randrange(4, 12), rnd.randrange(8, 25), rnd.randrange(15, 41)))
+        if rnd.random() < 0.05:
+            n = rnd.randrange(66, 100)                # positions beyond 63 (machine-word boundaries)
         if rnd.random() < 0.12:
             roots.append(gen_special(rnd))        # raw kappa above 1: exercises the clamp branch of kappa()
         else:
@@ -72,6 +74,12 @@ def gen_plan(streams, tier):
     ops = []
     nops = rnd.randrange(4, 17)
     p_light = rnd.choice((0.0, 0.0, 0.5, 1.0))
+    if rnd.random() < 0.01:
+        # a very long chain of swaps on objects whose delta-max is never looked at
+        for q in range(1100):
+            ops.append({"k": "swapres", "o": -1, "i": rnd.random(), "j": rnd.random(), "light": True} if q % 2 else
+                       {"k": "move", "o": -1, "m": "swapRandChargeRes", "fz": "none", "ft": "set", "panel": False, "light": True})
+        nops = 3
     if related:
         m0 = rnd.choice(MOVES)
         ops.append({"k": "warm", "o": 1, "how": rnd.choice(("kappa", "dmax", "dmax_perm"))})
@@ -91,7 +99,7 @@ def gen_plan(streams, tier):
             op.update(gen_frozen(rnd, allow_list=(m == "full_shuffle")))
             ops.append(op)
         elif x < 0.80:
-            ops.append({"k": "swapres", "o": o, "i": rnd.random(), "j": rnd.random() if rnd.random() < 0.9 else None})
+            ops.append({"k": "swapres", "o": o, "i": rnd.random(), "j": rnd.random() if rnd.random() < 0.9 else None, "light": rnd.random() < p_light})
         elif x < 0.93:
             op = {"k": "shuffle_api", "o": o, "panel": rnd.random() < 0.3, "light": rnd.random() < p_light}
             op.update(gen_frozen(rnd, allow_list=True))
@@ -114,7 +122,8 @@ def gen_frozen(rnd, allow_list):
         ft = "shared_set"
     else:
         ft = "set"
-    return {"fz": spec, "fp": rnd.choice((0.1, 0.3, 0.6)), "fs": rnd.randrange(1 << 30), "ft": ft, "kw": rnd.random() < 0.2}
+    return {"fz": spec, "fp": rnd.choice((0.1, 0.3, 0.6)), "fs": rnd.randrange(1 << 30), "ft": ft, "kw": rnd.random() < 0.2,
+            "npint": rnd.random() < 0.2}
 
 
 def resolve_frozen(op, seq):
@@ -150,8 +159,11 @@ def resolve_frozen(op, seq):
 CALLER_SET = set()
 
 
-def container(frozen, ft):
+def container(frozen, ft, npint=False):
     """the frozen positions in the container type the plan asks for (all plain Python containers)"""
+    if npint and ft != "range":
+        import numpy as np
+        frozen = [np.int64(x) for x in frozen]      # e.g. set(np.where(...)[0]): numpy integers, not Python ints
     if ft == "shared_set":
         # the caller keeps one set object and edits it in place between calls
         CALLER_SET.clear()
@@ -199,6 +211,12 @@ def corpus():
     mk("results_of_several_api_calls_stay_apart", ["MKEGSTYKEDDRRGSP", "GGSTKE"],
        [{"k": "permutant", "o": 0}, {"k": "permutant", "o": 1}, {"k": "shuffle_api", "o": 0, "fz": "none", "ft": "set", "panel": False},
         {"k": "permutant", "o": 0}, {"k": "shuffle_api", "o": 1, "fz": "half", "ft": "set", "panel": False}, {"k": "permutant", "o": 1}])
+    mk("thousand_cold_swaps", ["GKEGKEGSTYKEDDRR"], [({"k": "swapres", "o": -1, "i": (q * 7 % 16) / 16.0, "j": (q * 11 % 16) / 16.0, "light": True} if q % 2 else
+                                                     {"k": "move", "o": -1, "m": "swapRandChargeRes", "fz": "none", "ft": "set", "panel": False, "light": True})
+                                                    for q in range(1100)] + [{"k": "warm", "o": -1, "how": "kappa"}])
+    mk("numpy_integer_positions_beyond_63", ["MKEGSTYKEDDRRGSPAQ" * 5], [
+        {"k": kk, "o": 0, "m": "full_shuffle", "fz": "explicit", "fl": [0, 1, 5, 62, 63, 64, 65, 70, 80, 89], "ft": t, "npint": True, "panel": False}
+        for t in ("set", "list", "frozenset") for kk in ("move", "shuffle_api")])
     mk("frozen_charge_swap", ["MKEGSTYKEDDRRGSP"], [{"k": "move", "o": -1, "m": "swapRandChargeRes", "fz": z, "fp": 0.4, "fs": 9, "ft": "set", "panel": False}
                                                      for z in ("random", "pos", "neg", "neut", "all", "charged", "half")])
     mk("warm_cache_chain", ["GKEGKEGKEGKEGSTY"], [{"k": "warm", "o": 0, "how": "kappa"}] +
@@ -359,6 +377,8 @@ def execute(plan, ctx):
         depth.append(depth[parent_i] + 1)
         if depth[-1] >= 5:
             ctx.probe("chain_depth_ge_5")
+        if depth[-1] == 1001:
+            ctx.probe("chain_longer_than_1000")
 
     perm_objs = {}
     api_results = []      # (what, returned SequenceParameters object, the sequence it had when it was returned)
@@ -372,9 +392,17 @@ def execute(plan, ctx):
         _sweep_live(why)
 
     def _sweep_live(why):
+        idx = list(range(len(live)))
+        if len(idx) > 60:
+            # a very long chain: the roots, the most recent objects and an evenly spaced sample
+            idx = sorted(set(idx[:5] + idx[-25:] + idx[::max(1, len(idx) // 30)]))
+        _sweep_some(why, idx)
+
+    def _sweep_some(why, idx):
         """every live object still equals a fresh object built from the string it had when it was created
         (catches state shared between parent and child that a later move disturbs)"""
-        for j, o in enumerate(live):
+        for j in idx:
+            o = live[j]
             s0 = recorded.setdefault(j, wrap(o).get_sequence())
             w = wrap(o)
             if w.get_sequence() != s0:
@@ -391,7 +419,7 @@ def execute(plan, ctx):
 
     last_seed = [None]
     for n, op in enumerate(plan["ops"]):
-        if n and n % 4 == 0:
+        if n and n % 4 == 0 and len(plan["ops"]) <= 100:
             sweep("before op %d" % n)
         i = op["o"] % len(live) if op["o"] >= 0 else len(live) - 1
         parent = live[i]
@@ -432,7 +460,9 @@ def execute(plan, ctx):
                 m = op["m"]
                 key_site = m
                 frozen = resolve_frozen(op, pseq)
-                fz = container(frozen, op.get("ft"))
+                fz = container(frozen, op.get("ft"), op.get("npint"))
+                if op.get("npint") and frozen:
+                    ctx.probe("frozen_positions_are_numpy_ints")
                 where = "%s(frozen=%s as %s)" % (m, op.get("fz"), type(fz).__name__)
                 cap[0] = 60 * N + 600 if m in ("full_shuffle", "swapRandChargeRes") else 3000
                 if op.get("fz") == "default":
@@ -452,7 +482,9 @@ def execute(plan, ctx):
                 child = parent.swapRes(a, b)
             elif k == "shuffle_api":
                 frozen = resolve_frozen(op, pseq)
-                fz = container(frozen, op.get("ft"))
+                fz = container(frozen, op.get("ft"), op.get("npint"))
+                if op.get("npint") and frozen:
+                    ctx.probe("frozen_positions_are_numpy_ints")
                 where = "get_shuffled_sequence(frozen=%s as %s)" % (op.get("fz"), type(fz).__name__)
                 key_site = "get_shuffled_sequence"
                 cap[0] = 60 * N + 600
